@@ -52,6 +52,26 @@ TInterrupted == /\ Ev.op = "Interrupted"
 TLongMember == /\ Ev.op = "LongMember"
                /\ UNCHANGED vars
                /\ Judge(~Ev.raised /\ Ev.res = \A b \in Bases[Ev.b].elems : ~PContainsQ(Ev.q, b))
+\* Levels too long to enumerate by definition (lengths 8 to 13 of slowly growing classes), checked step by step: a class is
+\* closed under deleting the last entry, so level n + 1 is exactly the set of avoiding extensions of the members of level n
+\* by a last entry.  LevelStep: every avoiding extension of the listed members of level n is in the listed level n + 1;
+\* LevelSound: the listed members of a level are distinct permutations of that length avoiding the basis.  Both for every
+\* slice of every level from an exhaustively verified one upwards give equality with the definition, by induction.
+\* does the extension q of a member of the class (q without its last entry avoids the basis: LevelSound of the step before)
+\* avoid the basis?  An occurrence in q would have to use the last entry.
+EndsOccurrence(q, b) == Len(b) >= 1 /\ Len(b) <= Len(q) /\
+                        \E t \in PIncTuples(Len(b) - 1, Len(q) - 1) : POrderIso(b, Append(PPick(q, t), q[Len(q)]))
+ExtensionAvoids(q, bd) == \A b \in bd.elems : ~EndsOccurrence(q, b)
+TLevelStep == /\ Ev.op = "LevelStep"
+              /\ UNCHANGED vars
+              /\ LET nxt == ToSetOf(Ev.next) IN
+                 Judge(\A i \in DOMAIN Ev.prev : \A v \in 0..Ev.n :
+                          LET q == InsRight(Ev.prev[i], v) IN ExtensionAvoids(q, Bases[Ev.b]) => q \in nxt)
+TLevelSound == /\ Ev.op = "LevelSound"
+               /\ UNCHANGED vars
+               /\ Judge(/\ Cardinality(ToSetOf(Ev.members)) = Len(Ev.members)
+                        /\ \A i \in DOMAIN Ev.members : /\ PIsPerm(Ev.members[i]) /\ Len(Ev.members[i]) = Ev.n
+                                                         /\ AvoidsBasis(Ev.members[i], Bases[Ev.b]))
 TOpenOf == Ev.op = "OpenOf" /\ OpenOf(Ev.i, Ev.n) /\ Judge(TRUE)
 TOpenUpTo == Ev.op = "OpenUpTo" /\ OpenUpTo(Ev.i, Ev.n) /\ Judge(TRUE)
 TOpenFirst == Ev.op = "OpenFirst" /\ OpenFirst(Ev.i, Ev.n) /\ Judge(TRUE)
@@ -69,6 +89,6 @@ TNextIt ==
 
 TNext == /\ l <= Len(Trace) /\ l' = l + 1
          /\ (TReset \/ TNewAv \/ TClear \/ TCount \/ TOfLength \/ TEnum \/ TMember \/ TSub
-             \/ TOpenOf \/ TOpenUpTo \/ TOpenFirst \/ TNextIt \/ TInterrupted \/ TLongMember)
+             \/ TOpenOf \/ TOpenUpTo \/ TOpenFirst \/ TNextIt \/ TInterrupted \/ TLongMember \/ TLevelStep \/ TLevelSound)
 TraceDone == l = Len(Trace) + 1 => PrintT(ToJson([verdict |-> bad, drift |-> drift, n |-> Len(Trace)]))
 =============================================================================
